@@ -602,8 +602,9 @@ func c10Scenario(thorough bool) func(c *xplor.Ctx) {
 			cr := &wire.ClientReq{Form: p.client, Path: world.SvcPath + method, Codec: p.ccodec, Compression: alg, Accept: accept, Msgs: [][]byte{Enc(p.ccodec, reqMsg)}}
 			spec = world.SpecFromClient(cr)
 		}
-		if p.cl && spec.Body != nil {
-			spec.ContentLength = -2
+		if spec.Body != nil && (p.cl || c.Free("declared-length", 2) == 1) {
+			spec.ContentLength = -2 // the client declares the length of its (whole) body
+			c.Attr("~declared-length", "true")
 		}
 		ex, err := world.Do(tc, spec)
 		if err != nil {
@@ -897,6 +898,105 @@ func c10Errors(c *xplor.Ctx) {
 	c.Outcome(fmt.Sprintf("error code=%d", pr.End.Code))
 }
 
+// c10Streams: several messages that each fit the limit, in one request / response whose total
+// size (and declared Content-Length) exceeds it: the limit is per message, never per body.
+func c10Streams(c *xplor.Ctx) {
+	clients := []wire.Form{wire.GRPC, wire.GRPCWeb, wire.ConnectStream}
+	targets := []wire.Form{wire.GRPC, wire.GRPCWeb, wire.ConnectStream}
+	cl := clients[c.Free("client", len(clients))]
+	tg := targets[c.Free("target", len(targets))]
+	ccodec := []string{"proto", "json"}[c.Free("client-codec", 2)]
+	tcodec := []string{"proto", "json"}[c.Free("target-codec", 2)]
+	L := []int{512, 2048}[c.Free("limit", 2)]
+	declared := c.Free("declared-length", 2) == 1
+	frac := []int{60, 100}[c.Free("message-size-percent", 2)] // of the limit, in the larger of the two codecs
+	c.Attr("client", cl.String()+"/"+ccodec)
+	c.Attr("target", tg.String()+"/"+tcodec)
+	c.Attr("~limit", fmt.Sprint(L))
+	c.Attr("~declared-length", fmt.Sprint(declared))
+	if cl.Family() == tg.Family() && ccodec == tcodec {
+		c.Skip() // passed through untouched
+		return
+	}
+	acct := newC10Acct()
+	size := func(m proto.Message) int {
+		a, b := len(Enc(ccodec, m)), len(Enc(tcodec, m))
+		if ccodec == "json" || tcodec == "json" {
+			// vanguard's JSON codec emits unpopulated fields: measure with the real codec
+			j, _ := vanguard.NewJSONCodec(nil).MarshalAppend(nil, m)
+			if len(j) > a {
+				a = len(j)
+			}
+		}
+		if b > a {
+			return b
+		}
+		return a
+	}
+	msg := c10Find("plain", 1, size, L*frac/100, true, 40*L)
+	if msg == nil {
+		c.Skip()
+		return
+	}
+	const n = 3
+	be := &world.Backend{}
+	be.Respond = func(b *world.Backend, r *http.Request) *world.Reply {
+		acct.c10Stats = &acct.resp
+		var out [][]byte
+		for i := 0; i < n; i++ {
+			out = append(out, Enc(b.Parsed.Codec, msg))
+		}
+		return world.EchoReply(b.Parsed, out, "", nil)
+	}
+	tc, err := world.Build(world.Config{Protocols: []vanguard.Protocol{world.FormToProtocol(tg)}, Codecs: []string{tcodec}, NoCompress: true, MaxMsg: uint32(L), TOpts: c10Options(acct)}, be)
+	if err != nil {
+		c.Fail("harness.setup", "%v", err)
+		return
+	}
+	cr := &wire.ClientReq{Form: cl, Path: world.SvcPath + "Bidi", Codec: ccodec}
+	for i := 0; i < n; i++ {
+		cr.Msgs = append(cr.Msgs, Enc(ccodec, msg))
+	}
+	spec := world.SpecFromClient(cr)
+	if declared {
+		spec.ContentLength = -2
+	}
+	ex, err := world.Do(tc, spec)
+	if err != nil {
+		c.Fail("harness.setup", "%v", err)
+		return
+	}
+	if ex.Panic != nil {
+		c.Fail("C10.panic", "%s %s", ex.Panic.Value, stackTop(ex.Panic.Stack))
+		return
+	}
+	pr := wire.ParseClientResponse(cl, ex.Rec.Status, ex.Rec.HeadHeaders(), ex.Rec.BodyBytes.Bytes(), ex.Rec.Trailers)
+	biggest := 0
+	for _, v := range []int{acct.req.marshalMax, acct.req.unmarshalMax, acct.resp.marshalMax, acct.resp.unmarshalMax, len(Enc(ccodec, msg)), len(Enc(tcodec, msg))} {
+		if v > biggest {
+			biggest = v
+		}
+	}
+	c.Attr("~seams", fmt.Sprintf("messages=%d each<=%d body=%d client=%d/%q backend-messages=%d", n, biggest, len(spec.Body.Data), pr.End.Code, short(pr.End.Message), func() int {
+		if be.Parsed == nil {
+			return 0
+		}
+		return len(be.Parsed.Msgs)
+	}()))
+	c.AddEvaluations(1)
+	if biggest <= L {
+		c.Nontrivial(fmt.Sprintf("stream|%s|%s|%s|%s|%d|%v|%d", cl, ccodec, tg, tcodec, L, declared, frac))
+		if !pr.OK() {
+			c.Fail("C10.rejected-although-fits", "a stream of %d messages of at most %d bytes each (limit %d; body of %d bytes, length declared: %v) failed with code %d %q", n, biggest, L, len(spec.Body.Data), declared, pr.End.Code, short(pr.End.Message))
+		} else if be.Parsed == nil || len(be.Parsed.Msgs) != n || len(pr.Msgs) != n {
+			c.Fail("C10.lost", "the stream succeeded but %d request and %d response messages arrived instead of %d each", len(be.Parsed.Msgs), len(pr.Msgs), n)
+		}
+	} else if !pr.OK() && pr.End.Code != 8 {
+		c.Fail("C10.size-failure-wrong-code", "code %d %q", pr.End.Code, short(pr.End.Message))
+	}
+	c.Outcome(fmt.Sprintf("stream ok=%v", pr.OK()))
+}
+
 func init() {
 	Register(&Check{
 		ID:    "C10",
@@ -908,6 +1008,7 @@ func init() {
 			{Name: "limit", Fn: c10Scenario(false), QuickBound: 0, ThoroughBound: -1},
 			{Name: "limit-thorough", Fn: c10Scenario(true), QuickBound: -1, ThoroughBound: 0},
 			{Name: "errors", Fn: c10Errors, QuickBound: 0, ThoroughBound: 0},
+			{Name: "streams", Fn: c10Streams, QuickBound: 0, ThoroughBound: 0},
 		},
 	})
 }
